@@ -1,7 +1,7 @@
 (* Extraction of the executable models for the correspondence check.
    ExtrOcamlBasic only: bool/option/unit/list/prod/sumbool/sumor map to OCaml natives;
    N / positive / nat stay the extracted inductive types.  Run with cwd = coq/extract. *)
-From CB Require Import Word PStream PEnc PMem PItem PUtf8 PBuild PDrive SpecHead SpecItem SpecParse HHeap HItems HOps HHist HHist2 HHist3 PSize.
+From CB Require Import Word PStream PEnc PMem PItem PUtf8 PBuild PDrive SpecHead SpecItem SpecParse HHeap HItems HOps HHist HHist2 HHist3 PSize PWiden.
 Require Extraction.
 Require Import ExtrOcamlBasic.
 Extraction Language OCaml.
@@ -19,4 +19,5 @@ Extraction "model.ml"
   world0 step probe1 live_count run_hist
   ssize_s total_s shape
   set_handle_new set_handle_shorten new_definite_string_op
-  s3_0 step3 run_hist3 ptrs3 set_allocs.
+  s3_0 step3 run_hist3 ptrs3 set_allocs
+  widen32 float_get_float_bits.
